@@ -7,8 +7,8 @@
    Bounds: BNone (missing), BAt t (a date/datetime), BTod h (a datetime.time, compared with t mod day).
 
    pandas is the modelled oracle: df[lb:ub] on a sorted DatetimeIndex (closed on both sides) is
-   `label_slice`, boolean-mask selection is `filter`, pd.concat([pre, post]).sort_index() of two sorted
-   pieces is `merge`, pd.concat(axis = 1) of Series is the sorted outer join `join`.
+   `label_slice`, boolean-mask selection is `filter`, pd.concat([pre, post]).sort_index() is the stable
+   sort `isort` (= `merge` for two pieces in time order), pd.concat(axis = 1) of Series is the sorted outer join `join`.
    The wrap-around window is modelled in its REPAIRED form (fixes/C13.patch: `openclose` is passed to
    the two recursive calls); `wrap_slice` takes the brackets used by the recursive calls as a separate
    argument so that the pinned behaviour (always "(]") can be stated and refuted. df_unslice is modelled
@@ -54,14 +54,34 @@ Definition mask_slice {A} (oc : bool * bool) (lb ub : bound) (rows : list (Z * A
 Definition label_slice {A} (lb ub : bound) (rows : list (Z * A)) : list (Z * A) :=
   takewhile (fun r => le_ub true ub (fst r)) (dropwhile (fun r => negb (ge_lb true lb (fst r))) rows).
 
-(* _df_slice for a datetime-indexed object *)
+(* index.is_monotonic_increasing (non-strict: repeated timestamps allowed) *)
+Fixpoint is_mono {A} (rows : list (Z * A)) : bool :=
+  match rows with
+  | a :: ((b :: _) as t) => (fst a <=? fst b) && is_mono t
+  | _ => true
+  end.
+
+(* _df_slice for a datetime-indexed object.  The index may be stored in any order and may repeat timestamps:
+   the label slice is only used when the index is in time order (REPAIRED form, fixes/C13.patch; the pinned tree
+   tries df[lb:ub] on any index, which pandas answers by POSITION when both labels exist in an unsorted index);
+   otherwise the boolean masks select the rows, in their stored order *)
 Definition slice1 {A} (oc : bool * bool) (lb ub : bound) (rows : list (Z * A)) : list (Z * A) :=
   if is_none lb && is_none ub then rows
-  else if (fst oc || is_none lb) && (snd oc || is_none ub) && negb (is_tod lb) && negb (is_tod ub)
+  else if (fst oc || is_none lb) && (snd oc || is_none ub) && negb (is_tod lb) && negb (is_tod ub) && is_mono rows
        then label_slice lb ub rows
        else mask_slice oc lb ub rows.
 
-(* pd.concat([pre, post]).sort_index() for two sorted pieces *)
+(* sort_index: stable insertion sort by timestamp (rows sharing a timestamp keep their relative order; pandas leaves
+   that order unspecified, the harness compares such rows as a multiset) *)
+Fixpoint insert {A} (x : Z * A) (l : list (Z * A)) : list (Z * A) :=
+  match l with
+  | [] => [x]
+  | y :: t => if fst x <=? fst y then x :: l else y :: insert x t
+  end.
+Fixpoint isort {A} (l : list (Z * A)) : list (Z * A) :=
+  match l with [] => [] | x :: t => insert x (isort t) end.
+
+(* the same for two pieces that are already in time order (used by the proofs: isort (a ++ b) = merge a b) *)
 Fixpoint merge {A} (a : list (Z * A)) : list (Z * A) -> list (Z * A) :=
   fix m2 (b : list (Z * A)) : list (Z * A) :=
     match a, b with
@@ -75,7 +95,7 @@ Fixpoint merge {A} (a : list (Z * A)) : list (Z * A) -> list (Z * A) :=
 Definition wrap_slice {A} (oc_rec oc : bool * bool) (lb ub : bound) (rows : list (Z * A)) : list (Z * A) :=
   match lb, ub with
   | BTod a, BTod b =>
-      if b <? a then merge (slice1 oc_rec BNone ub rows) (slice1 oc_rec lb BNone rows)
+      if b <? a then isort (slice1 oc_rec BNone ub rows ++ slice1 oc_rec lb BNone rows)
       else slice1 oc lb ub rows
   | _, _ => slice1 oc lb ub rows
   end.
